@@ -252,6 +252,57 @@ def run(ctx):
                     exact += 1
             okh = len(oks) == 1 and len(in_allowed) == 1 and exact >= 1 and len(health) == exact
             chk.ob("C18.a", f"{hh.path} [/health]", okh, "/health -> OK, only for allowed peers; any other path -> render" if okh else "/health is not answered `OK` under the allowlist gate", hh.loc())
+            # "a rendering of the metrics at that time": every value the non-/health answer can take is the result of the
+            # render() made for this very request (not a copy kept from an earlier one)
+            CONV = ("into", "unwrap", "expect", "clone", "to_string", "into_bytes", "freeze", "to_owned", "unwrap_or_default", "into_boxed_str", "to_vec")
+
+            def _let_init(name, hid):
+                for st in walk(h):
+                    if st.get("k") in ("Let", "Local") and isinstance(st.get("pat"), dict) and st["pat"].get("k") == "Bind" and st["pat"].get("name") == name and st["pat"].get("id") == hid and st.get("init"):
+                        return st["init"]
+                return None
+
+            def sources(e, depth=0):
+                e = peel(e or {})
+                k = e.get("k")
+                if depth > 12:
+                    return [e]
+                if k == "Block":
+                    return sources(e.get("expr"), depth + 1) if e.get("expr") else [e]
+                if k == "Match" and (e.get("src") or "").startswith("Normal"):
+                    return [x for a_ in e["arms"] for x in sources(a_["body"], depth + 1) if not _diverges(a_["body"])]
+                if k == "If":
+                    return sources(e.get("then"), depth + 1) + (sources(e.get("else"), depth + 1) if e.get("else") else [])
+                if k == "MethodCall" and e.get("name") in CONV and e.get("recv") is not None:
+                    return sources(e["recv"], depth + 1)
+                if k == "Call" and len(e.get("args") or []) == 1 and is_call_to(e, "From::from", "Into::into", "Full<D>::new", "Bytes::from"):
+                    return sources(e["args"][0], depth + 1)
+                if k == "Path" and e.get("res") == "local":
+                    init = _let_init(e.get("name"), e.get("id"))
+                    if init is not None:
+                        return sources(init, depth + 1)
+                return [e]
+
+            def _diverges(e):
+                e = peel(e or {})
+                return e.get("k") in ("Ret", "Break", "Continue") or (e.get("k") == "Block" and not e.get("expr") and any(peel(x.get("e") or x).get("k") == "Ret" for x in (e.get("stmts") or [])[-1:]))
+
+            served = []
+            for n in deep(allowed_region):
+                if n.get("k") == "Match" and (n.get("src") or "").startswith("Normal") and any(a_["pat"].get("k") == "Lit" and a_["pat"].get("str") == "/health" for a_ in n["arms"]):
+                    served = [a_["body"] for a_ in n["arms"] if not (a_["pat"].get("k") == "Lit" and a_["pat"].get("str") == "/health")]
+            if served:
+                leaves = [x for b_ in served for x in sources(b_)]
+                stale = [x for x in leaves if not has_render(x)]
+                chk.ob("C18.a", f"{hh.path} [body is this request's rendering]", bool(leaves) and not stale, f"{len(leaves)} value(s) the metrics answer can take, each the render() made for this request" if leaves and not stale else f"the metrics answer can be a value that is not the result of this request's render() (line {stale[0].get('ln') if stale else '?'}): a scrape is answered with an earlier rendering, missing updates made since", f"{hh.file}:{stale[0].get('ln') if stale else hh.line}", nontrivial=False)
+            # "aborted requests never prevent later clients from being served": shared state changed before an await point is
+            # not put back by a statement after it — a request future dropped at the await (client abort) never gets there
+            ATW = ("swap", "store", "compare_exchange", "compare_exchange_weak", "fetch_or", "fetch_and", "fetch_add", "fetch_sub", "fetch_xor", "fetch_update")
+            aw = sorted({n.get("ln") for n in walk(h) if n.get("k") == "Match" and (n.get("src") or "").startswith("AwaitDesugar") and n.get("ln")})
+            wr = [n for n in walk(h) if n.get("k") == "MethodCall" and n.get("name") in ATW and "sync::atomic" in (n.get("def") or n.get("resolved") or "")]
+            parked = [a_ for a_ in aw if any(w.get("ln", 0) <= a_ for w in wr) and any(w.get("ln", 0) > a_ for w in wr)]
+            if aw:
+                chk.ob("C18.a", f"{hh.path} [nothing parked across an await]", not parked, f"{len(aw)} await point(s), {len(wr)} atomic write(s) in the handler, none straddling an await" if not parked else f"shared atomic state is changed before the await at line {parked[0]} and restored by a statement after it: when a client aborts, the request future is dropped at the await and the state is never restored — every later request waits for it", f"{hh.file}:{parked[0] if parked else hh.line}", nontrivial=False)
         elif n_render != 1:
             detail = f"{n_render} render() call sites"
         chk.ob("C18.a", f"{hh.path} [gate]", ok, "metrics (and /health) are served only when is_allowed holds" if ok else f"the response is not gated by exactly the is_allowed flag ({detail}): a peer outside the allowlist can get a 200 answer", hh.loc())
@@ -452,6 +503,22 @@ def run(ctx):
                                         okb = True
             if nl:
                 chk.ob("C18.d", f"{bl.path} [allowlist handed to the listener]", okb, "new_http_listener receives the collected networks" if okb else "build() does not hand the collected networks to new_http_listener", where)
+        # ... and the listener keeps the list it is given: the exporter's allowlist field is the parameter itself (entries
+        # are not filtered away, and an emptied list does not silently become `no list`, which admits everyone)
+        nhl = p.fn("metrics_exporter_prometheus::exporter::http_listener::new_http_listener")
+        if nhl is not None:
+            nsy = Sym(nhl)
+            for i_, k_, st in nhl.body.stmts():
+                if st["k"] == "assign" and st["rv"]["k"] == "agg" and (st["rv"].get("adt") or "").endswith("HttpListeningExporter"):
+                    for fname_, op_ in zip(st["rv"].get("fields") or [], st["rv"].get("ops") or []):
+                        if "allow" not in fname_:
+                            continue
+                        v_ = nsy.operand(op_)
+                        from props.common import transformations
+
+                        tr_ = transformations(v_)
+                        okk = tr_ == [] and sym_arg(strip_sym(sym_through(v_, "Into::into", "From::from", "Option<T>::map"))) is not None or sym_arg(strip_sym(v_)) is not None
+                        chk.ob("C18.d", f"{nhl.path} [allowlist kept as given]", okk, "the exporter's allowlist is the parameter unchanged" if okk else f"the listener stores {sym_str(v_)[:80]} instead of the list it was given: listed networks can be dropped, and a list that ends up empty is treated as `no allowlist` — every peer is served", f"{nhl.file}:{st.get('ln')}", nontrivial=False)
 
     # ---------------- C18.c
     aa = one_method(chk, "C18.c", p, PB, "add_allowed_address")
